@@ -25,7 +25,7 @@ LEVEL_TEXT = ("Seeded stall-fault injection: the live state is checked at every 
 LEVEL_NOTE = "Trusted: harness observers, dump comparison; sampling evidence only."
 PROBES = ["absence_step_with_working_task", "absence_at_step_0", "consecutive_absence", "fault.absence_beyond_end",
           "auto_progress_in_absence", "auto_frozen_in_absence", "individual_absence_on_holder", "twin_compared",
-          "twin_with_beyond_end", "twin_cut_off_by_max_time", "backward_runs", "random_progress_twin", "only_facilities_have_absence_lists"]
+          "twin_with_beyond_end", "twin_cut_off_by_max_time", "backward_runs", "random_progress_twin", "only_facilities_have_absence_lists", "backward_twin_compared"]
 
 
 def budget(tier):
@@ -71,6 +71,8 @@ def gen(rng, tier):
                     w["sd"] = sd
     if not twin and rng.random() < 0.3:
         spec["backward"] = {"due": rng.random() < 0.3, "reverse": rng.random() < 0.5}
+    if twin and not random_twin and rng.random() < 0.2:
+        spec["backward_twin"] = {"due": rng.random() < 0.3, "reverse": True}  # the twin clause on the result of a backward simulation
     return spec
 
 
@@ -78,6 +80,10 @@ def extra_candidates(spec):
     if spec.get("backward") is not None:
         c = dict(spec)
         c.pop("backward")
+        yield c
+    if spec.get("backward_twin") is not None:
+        c = dict(spec)
+        c.pop("backward_twin")
         yield c
     if spec.get("random_twin"):
         # fewer uncertain skills
@@ -275,12 +281,17 @@ def run(spec):
         # twin A: absence run with stretched limit, then delete the absence steps
         cfgA = dict(spec["cfg"])
         cfgA["max_time"] = stretched_max_time(M, L)
+        bwt = spec.get("backward_twin")
+        if bwt is not None and bwt.get("due") and spec["cfg"].get("auto_flag"):
+            bwt = dict(bwt, due=False)  # the due-time helpers are automatic tasks: with the flag set they legitimately work in absence steps
+        if bwt is not None:
+            res.count("backward_twin_compared")
         scen.setup_run(spec.get("seed", 0))
-        ta = scen.run_forward(spec["model"], spec.get("ranks"), cfgA, want_snap=False)
+        ta = scen.run_forward(spec["model"], spec.get("ranks"), cfgA, want_snap=False, **({"backward": bwt} if bwt else {}))
         cfgB = dict(spec["cfg"])
         cfgB["absence"] = []
         scen.setup_run(spec.get("seed", 0))
-        tb = scen.run_forward(spec["model"], spec.get("ranks"), cfgB, want_snap=False)
+        tb = scen.run_forward(spec["model"], spec.get("ranks"), cfgB, want_snap=False, **({"backward": bwt} if bwt else {}))
         if ta.out.ok and tb.out.ok:
             n_before = ta.project.time
             o = D.call(lambda: ta.project.remove_absence_time_list())
@@ -302,8 +313,10 @@ def run(spec):
                     attrs = D.diff_attrs(da, db)
                     rule = spec["cfg"].get("rule", 0)
                     cause = "rule_%s" % ["TSLACK", "EST", "SPT", "LPT", "FIFO", "LRPT", "SRPT", "LWRPT", "SWRPT"][rule]
-                    if rule == 4 and fifo_explains(spec, cfgA, cfgB, L):
+                    if rule == 4 and bwt is None and fifo_explains(spec, cfgA, cfgB, L):
                         cause = "FIFO_counts_absence_steps_as_waiting"
+                    if bwt is not None and not cause.startswith("FIFO_counts"):
+                        cause += ".backward"
                     if spec.get("random_twin") and not cause.startswith("FIFO_counts"):
                         cause += ".uncertain_progress_fixed_seed"
                     res.add("twin", "C10.twin_differs." + cause,
